@@ -390,3 +390,18 @@ def seg_cases(segs, limit=8):
     if len(atoms) > limit:
         return None
     return [(dict(zip(atoms, bits)), resolve_segs(segs, dict(zip(atoms, bits)))) for bits in itertools.product((False, True), repeat=len(atoms))]
+
+
+
+def seg_elems(segs, loops=(), guards=()):
+    """(kind, term, enclosing loop ids, guards) for every element / splat leaf of a segment list."""
+    for s in segs:
+        if s[0] in ("e", "s"):
+            yield s[0], s[1], loops, guards
+        elif s[0] == "loop":
+            yield from seg_elems(s[2], loops + (s[1],), guards)
+        elif s[0] == "if":
+            yield from seg_elems(s[2], loops, guards + (norm_guard(s[1], True),))
+            yield from seg_elems(s[3], loops, guards + (norm_guard(s[1], False),))
+        else:
+            yield s[0], s, loops, guards
